@@ -211,7 +211,7 @@ def cases(tier, seed):
             ng = max(assign) + 1
             perms = list(itertools.permutations(range(3), ng))
             perm = list(Rng(seed, PID, "perm", n, ai).choice(perms))
-            psize = 64
+            psize = 64 if n != 3 else 16      # smaller blocks spread evenly over the workers
             for part in range((4 ** n + psize - 1) // psize):
                 unw.append({"kind": "enum", "n": n, "assign": assign, "perm": perm, "weights": "none", "part": part,
                             "psize": psize, "profile": "full"})
@@ -221,9 +221,9 @@ def cases(tier, seed):
             perms = list(itertools.permutations(range(3), ng))
             perm = list(Rng(seed, PID, "permw", n, ai).choice(perms))
             profile = "full" if n <= 2 else ("wide" if tier == "thorough" else "named")
-            psize = {1: 4, 2: 8, 3: (16 if profile == "named" else 4)}[n]
+            psize = {1: 4, 2: 8, 3: (8 if profile == "named" else 4)}[n]
             for part in range((4 ** n + psize - 1) // psize):
-                if tier == "quick" and n == 3 and part % 4 != ai % 4:
+                if tier == "quick" and n == 3 and part % 8 != ai % 8:
                     continue      # quick: a quarter of the weighted n = 3 blocks (all of them in thorough)
                 wtd.append({"kind": "enum", "n": n, "assign": assign, "perm": perm, "weights": "all123", "part": part,
                             "psize": psize, "profile": profile})
